@@ -1,6 +1,7 @@
 import Revm.Model.Interp
 import Revm.Spec.Arith
 import Revm.Spec.Stack
+import Revm.Model.Jump
 /-! Yellow-Paper-style rules of the PURE instructions (C01): for each opcode family the number of popped words δ, the
 pushed word (α ≤ 1) as a function of the popped words / the machine state, the static gas and the fork of activation,
 and the exceptional halts in the order these instructions report them (not activated, out of gas, stack underflow,
@@ -90,6 +91,30 @@ def pushRule (n : Nat) (s : IState) : Done :=
     else .next { charge (adv s) GasCalc.VERYLOW with
                  stack := s.stack ++ [Spec.Stack.beNat ((s.code.drop (s.pc + 1)).take n)], pc := s.pc + 1 + n }
   else .fault .oobCode
+
+/-! ## control flow -/
+
+/-- the destination check of JUMP / JUMPI on the state left after the pops -/
+def jumpTo (s2 : IState) (target : Nat) : Done :=
+  match Jump.asUsizeOrFail target with
+  | some x => if Jump.isValid s2.jumpTable x then .next { s2 with pc := x } else .halt .InvalidJump [] s2
+  | none => .halt .InvalidJump [] s2
+
+/-- JUMP: δ = 1, α = 0, `G_mid`; the destination must be a JUMPDEST of the analysed code (C04) -/
+def jumpRule (s : IState) : Done :=
+  if s.gas.remaining < GasCalc.MID then .halt .OutOfGas [] (adv s)
+  else match s.stack.reverse with
+    | t :: rest => jumpTo { charge (adv s) GasCalc.MID with stack := rest.reverse } t
+    | [] => .halt .StackUnderflow [] (charge (adv s) GasCalc.MID)
+
+/-- JUMPI: δ = 2, α = 0, `G_high`; falls through when the condition word is zero -/
+def jumpiRule (s : IState) : Done :=
+  if s.gas.remaining < GasCalc.HIGH then .halt .OutOfGas [] (adv s)
+  else match s.stack.reverse with
+    | t :: c :: rest =>
+      let s2 := { charge (adv s) GasCalc.HIGH with stack := rest.reverse }
+      if c ≠ 0 then jumpTo s2 t else .next s2
+    | _ => .halt .StackUnderflow [] (charge (adv s) GasCalc.HIGH)
 
 /-! ## the table of word operations -/
 
